@@ -401,12 +401,27 @@ pub fn strategy() -> impl Strategy<Value = Case> {
             }
             Case::Field { buf, size }
         }),
+        // valid text over the whole repertoire (special scalars such as U+FFFD, U+FEFF, astral characters) cut at an
+        // arbitrary byte, optionally with a NUL somewhere and arbitrary bytes behind the cut
+        2 => (crate::gen::message::short_text(40), crate::gen::message::short_text(40), any::<u16>(), prop::option::weighted(0.3, any::<u16>()), vec(any::<u8>(), 0..4)).prop_map(|(t1, t2, cut, nul, tail)| {
+            let mut buf = t1.into_bytes();
+            buf.extend_from_slice(t2.as_bytes());
+            let size = (cut as usize * (buf.len() + 1)) >> 16;
+            if let Some(k) = nul {
+                if !buf.is_empty() {
+                    let at = (k as usize * buf.len()) >> 16;
+                    buf[at] = 0;
+                }
+            }
+            buf.extend(tail);
+            Case::Field { buf, size }
+        }),
         1 => (vec(alpha(), 0..12), prop::sample::select(vec![usize::MAX, usize::MAX - 1, 1 << 40, 70_000])).prop_map(|(buf, size)| Case::Field { buf, size }),
         3 => (vec(alpha(), 16), any::<bool>()).prop_map(|(ids, big_endian)| Case::Ids { ids, big_endian }),
         1 => (vec(any::<u8>(), 16), any::<bool>()).prop_map(|(ids, big_endian)| Case::Ids { ids, big_endian }),
         // sixteen bytes of valid text cut into four fields wherever the 4-byte boundaries fall: characters that straddle
         // two neighbouring fields, fields that are clean only together with their neighbour
-        2 => (vec(prop::sample::select(vec!["a", "B", "é", "ß", "€", "日", "𝄞", "7", "\u{7f}"]), 16), 0usize..4, any::<bool>(), prop::option::weighted(0.3, 0usize..16)).prop_map(|(pieces, pre, big_endian, nul)| {
+        2 => (vec(prop::sample::select(vec!["a", "B", "é", "ß", "€", "日", "𝄞", "7", "\u{7f}", "\u{fffd}"]), 16), 0usize..4, any::<bool>(), prop::option::weighted(0.3, 0usize..16)).prop_map(|(pieces, pre, big_endian, nul)| {
             let mut text = "xyz"[..pre].to_string();
             text.push_str(&pieces.concat());
             let mut ids = text.into_bytes();
